@@ -171,6 +171,9 @@ type DFS struct {
 	Poison map[string]bool
 	// Nontrivial, if set, classifies a state reached by hist as non-trivial.
 	Nontrivial func(hist []string, w World) bool
+	// Final, if set, runs a final-phase oracle for the state reached by hist on a world of its own
+	// (called once per distinct expanded state).
+	Final func(hist []string) []Violation
 	// Deadline check: returns true when the time budget is exhausted.
 	Expired func() bool
 
@@ -314,6 +317,14 @@ func (d *DFS) explore(hist []string, keys []string, w World) {
 			return
 		}
 		d.seen[h] = rem + 1
+	}
+	if d.Final != nil {
+		d.Stats.Executions++
+		for _, v := range d.Final(hist) {
+			v.Scenario = d.Scenario
+			v.History = append(append([]string{}, hist...), "<final phase>")
+			d.Stats.Violate(v)
+		}
 	}
 	if rem <= 0 {
 		if len(d.Stats.Samples) < 4 {
